@@ -245,7 +245,7 @@ def run_driver(name, lines, timeout=3000):
 
 
 # configuration-valued parameter defaults (`x: Param[C] = C(a=1)`) in the generated class libraries of C01-C03
-CFG_DEFAULTS = os.environ.get("XV_CFGDEFAULTS", "0") == "1"
+CFG_DEFAULTS = os.environ.get("XV_CFGDEFAULTS", "1") == "1"
 
 
 class DriverError(Exception):
